@@ -2,12 +2,20 @@ import DdoModel.Proofs.CacheClosedSolver
 import DdoModel.Proofs.CacheClosedAny
 import DdoModel.Proofs.AnyOrderLayered
 import DdoModel.Proofs.CacheClosedTwoState
-/-! # C09 (closed) — the caching sequential solver over the diagram model returns the optimum
+/-! # C09 (closed) — the caching sequential solver over the diagram model returns the optimum, **for every pop order**
 
 `Props/C09b.lean` proved the soundness of the thresholds (`theta_sound`), the abstract invariant `CInvC` of the caching solver
-under the contract `CompC` of a caching compilation and best-first pops (`processC_inv_any`), and discharged three fields of
-`CompC` from the diagram model.  What was only stated there (`CompCRest`) is proved here, and the composition is closed in the
-style of `Props/C01d.lean` (`Ddo.C01.sequential_solver_correct`).
+under the contract `CompC` of a caching compilation, whatever node is popped (`processC_inv_any`), and discharged three fields
+of `CompC` from the diagram model.  The remaining fields are proved here, and the composition is closed in the style of
+`Props/C01d.lean` (`Ddo.C01.sequential_solver_correct`).
+
+**Finding D14 and its repair.**  The solver used to cap the bound of every cut-set node by the bound of the sub-problem just
+processed (`enqueue_cutset(ub)`: `cutset_node.ub = ub.min(cutset_node.ub)`).  With the threshold cache that is unsound when
+sub-problems are not processed best-first: `anyOrderOpt_false` (a statement about that **pre-fix** solver, kept here as the
+named variant `kturnCapped` / `KRunAnyCapped` / `ksolveSchedCapped` of `Proofs/CacheClosedDefs.lean`).  The code was repaired
+by **dropping the cap** (and taking `best_ub := min best_ub node.ub` at pop, so that the *reported* bound stays monotone); the
+model of this development — `SeqSt.enqueue`, `SolverCfg.kturn`, `KStepAny`, … — is the repaired solver, and the headline
+`caching_solver_correct` holds for **every** pop order.
 
 ## 1. the contract `CompC` from the diagram model (`Proofs/CacheClosed*.lean`)
 
@@ -44,20 +52,24 @@ invariant `CacheOk`, not by the compilation), well-formed model, width ≥ 1, no
 `SeqSt` + `Cache`; `SolverCfg.kturn` = one turn (cache-cleaning loop with its `clear_layer` calls, pop, `afterPop`, bound
 test, `must_explore` — **read-only**: `Cache::must_explore` in `abstraction/cache.rs` only calls `get_threshold`, it does not
 record the popped node —, restricted compilation consulting the cache + replay of its `update_threshold` calls, relaxed
-compilation consulting the *updated* cache + replay, `maybe_update_best`, `enqueue_cutset`); `KStep` (best-first pop), `KRun`,
-`SolverCfg.ksolveLoop` (fuel-driven), `SolverCfg.ksolveSched` (explicit pop schedule, for `AnyOrder`).
+compilation consulting the *updated* cache + replay, `maybe_update_best`, `enqueue_cutset` — no cap); `KStepAny` (one turn, any
+entry of the fringe popped), `KRunAny`, `KStep` (best-first pop), `KRun`, `SolverCfg.ksolveLoop` (fuel-driven, best-first),
+`SolverCfg.ksolveSched` (explicit pop schedule).
 
 ## 3. the headline `caching_solver_correct`
 
-Same hypotheses as `sequential_solver_correct` (`WellFormed sv H B0 B`, nothing added).  `KInvSt` is the loop invariant;
-`kturn_inv` (in `Proofs/CacheClosedSolver.lean`): a turn from a state satisfying it does not panic, preserves it, and is a
-`Step` of `Props/C01t.lean` on the sequential state (a node skipped by `must_explore` also decreases the measure).
+Same hypotheses as `sequential_solver_correct` (`WellFormed sv H B0 B`, nothing added), **any pop order**.  `KInvSt` is the loop
+invariant; `kturn_inv` (in `Proofs/CacheClosedSolver.lean`): a turn from a state satisfying it, whatever node is popped, does
+not panic, preserves it, and is a `Step` of `Props/C01t.lean` on the sequential state (a node skipped by `must_explore` also
+decreases the measure).  `caching_solver_correct_bestfirst`: the corollary for best-first pops (`KStep` / `KRun`; the statement
+that was the headline before the repair of D14).
 
 ## 4. non-vacuity — `Revisit`: a model on which `must_explore` really refuses a popped node (`decide`d through the fuel loop).
 
-## 5. `AnyOrder` — `caching_solver_anyorder_sound` (every pop order: termination, no panic, soundness) and
-`anyOrderOpt_false` (**optimality fails** for a breadth-first pop order on a well-formed model; counter-example in
-`Proofs/AnyOrderLayered.lean`). -/
+## 5. `AnyOrder` — `caching_solver_anyorder_sound` (every pop order: termination, no panic, soundness; now a corollary of the
+headline), `AnyOrderOptFixed` / `anyOrderOptFixed_true` (optimality for every pop order: the headline) and, about the
+**pre-fix** solver, `AnyOrderOpt` / `anyOrderOpt_false` (**optimality failed** for a breadth-first pop order on a well-formed
+model; counter-example in `Proofs/AnyOrderLayered.lean`). -/
 set_option linter.unusedSectionVars false
 set_option linter.unusedVariables false
 namespace Ddo.C09
@@ -110,28 +122,31 @@ theorem init_kinv {sv : SolverCfg S} {H : Nat → S → EInt} {B0 B : Int} (hwf 
   · show (Cache.init sv.P.nbVars : Cache S).layers.length = sv.P.nbVars + 1
     simp [Cache.init]
 
-/-! ## (a) the invariant along the runs -/
+/-! ## (a) the invariant along the runs, any pop order -/
 
-theorem kstep_bf {sv : SolverCfg S} {N : SubP S} {rest : List (SubP S)}
-    (hmax : ∀ c ∈ rest, c.ub < N.ub ∨ (c.ub = N.ub ∧ c.value ≤ N.value)) : ∀ c ∈ rest, c.ub ≤ N.ub := by
-  intro c hc
-  rcases hmax c hc with h | ⟨h, _⟩ <;> omega
-
-/-- **(a) `KInvSt` is a loop invariant of the caching solver** -/
-theorem kstep_inv {sv : SolverCfg S} {H : Nat → S → EInt} {B0 B : Int} (hwf : WellFormed sv H B0 B) {s t : KSt S}
-    (h : KStep sv s t) (hI : KInvSt sv H B s) : KInvSt sv H B t := by
+/-- **(a) `KInvSt` is a loop invariant of the caching solver for every pop order**, and a turn is a `Step` of
+    `Props/C01t.lean` on the sequential state -/
+theorem kstepAny_inv {sv : SolverCfg S} {H : Nat → S → EInt} {B0 B : Int} (hwf : WellFormed sv H B0 B) {s t : KSt S}
+    (h : KStepAny sv s t) (hI : KInvSt sv H B s) : KInvSt sv H B t ∧ C01t.Step sv.P.nbVars sv.dedup s.st t.st := by
   cases h with
-  | pop N rest hpop hmax hturn =>
-    obtain ⟨t', ht', hT, _⟩ := kturn_inv hwf s N rest hpop (kstep_bf (sv := sv) hmax) hI
+  | pop N rest hpop hturn =>
+    obtain ⟨t', ht', hT, hS⟩ := kturn_inv hwf s N rest hpop hI
     rw [hturn] at ht'
     cases ht'
-    exact hT
+    exact ⟨hT, hS⟩
 
-theorem krun_inv {sv : SolverCfg S} {H : Nat → S → EInt} {B0 B : Int} (hwf : WellFormed sv H B0 B) {s t : KSt S}
-    (h : KRun sv s t) (hI : KInvSt sv H B s) : KInvSt sv H B t := by
+theorem krunAny_inv {sv : SolverCfg S} {H : Nat → S → EInt} {B0 B : Int} (hwf : WellFormed sv H B0 B) {s t : KSt S}
+    (h : KRunAny sv s t) (hI : KInvSt sv H B s) : KInvSt sv H B t := by
   induction h with
   | refl => exact hI
-  | tail _ hstep ih => exact kstep_inv hwf hstep ih
+  | tail _ hstep ih => exact (kstepAny_inv hwf hstep ih).1
+
+/-- best-first pops: a special case -/
+theorem kstep_inv {sv : SolverCfg S} {H : Nat → S → EInt} {B0 B : Int} (hwf : WellFormed sv H B0 B) {s t : KSt S}
+    (h : KStep sv s t) (hI : KInvSt sv H B s) : KInvSt sv H B t := (kstepAny_inv hwf h.any hI).1
+
+theorem krun_inv {sv : SolverCfg S} {H : Nat → S → EInt} {B0 B : Int} (hwf : WellFormed sv H B0 B) {s t : KSt S}
+    (h : KRun sv s t) (hI : KInvSt sv H B s) : KInvSt sv H B t := krunAny_inv hwf h.any hI
 
 /-! ## (b) partial correctness -/
 
@@ -167,57 +182,94 @@ theorem kinv_end_correct {sv : SolverCfg S} {H : Nat → S → EInt} {B0 B : Int
 
 /-! ## (c) termination -/
 
-/-- under the invariant a turn is a `Step` of `Props/C01t.lean` on the sequential state (skipped nodes included) -/
-theorem kstep_step {sv : SolverCfg S} {H : Nat → S → EInt} {B0 B : Int} (hwf : WellFormed sv H B0 B) {s t : KSt S}
-    (hI : KInvSt sv H B s) (h : KStep sv s t) : C01t.Step sv.P.nbVars sv.dedup s.st t.st := by
-  cases h with
-  | pop N rest hpop hmax hturn =>
-    obtain ⟨t', ht', _, hS⟩ := kturn_inv hwf s N rest hpop (kstep_bf (sv := sv) hmax) hI
-    rw [hturn] at ht'
-    cases ht'
-    exact hS
-
-/-- **(c) termination**: the step relation, on the states that satisfy the invariant, is well-founded -/
-theorem kstep_terminates {sv : SolverCfg S} {H : Nat → S → EInt} {B0 B : Int} (hwf : WellFormed sv H B0 B) :
-    WellFounded (fun t s : KSt S => KInvSt sv H B s ∧ KStep sv s t) :=
+/-- **(c) termination**: the step relation with arbitrary pops, on the states that satisfy the invariant, is well-founded -/
+theorem kstepAny_terminates {sv : SolverCfg S} {H : Nat → S → EInt} {B0 B : Int} (hwf : WellFormed sv H B0 B) :
+    WellFounded (fun t s : KSt S => KInvSt sv H B s ∧ KStepAny sv s t) :=
   Subrelation.wf (r := InvImage (fun t s : SeqSt S => C01t.Step sv.P.nbVars sv.dedup s t) KSt.st)
-    (fun {_ _} h => kstep_step hwf h.1 h.2) (InvImage.wf _ (C01t.seq_terminates sv.P.nbVars sv.dedup))
+    (fun {_ _} h => (kstepAny_inv hwf h.2 h.1).2) (InvImage.wf _ (C01t.seq_terminates sv.P.nbVars sv.dedup))
 
-theorem no_infinite_krun {sv : SolverCfg S} {H : Nat → S → EInt} {B0 B : Int} (hwf : WellFormed sv H B0 B)
-    (run : Nat → KSt S) (h0 : run 0 = KSt.init sv) : ¬ ∀ n, KStep sv (run n) (run (n + 1)) := by
+theorem no_infinite_krunAny {sv : SolverCfg S} {H : Nat → S → EInt} {B0 B : Int} (hwf : WellFormed sv H B0 B)
+    (run : Nat → KSt S) (h0 : run 0 = KSt.init sv) : ¬ ∀ n, KStepAny sv (run n) (run (n + 1)) := by
   intro hrun
   have hinv : ∀ n, KInvSt sv H B (run n) := by
     intro n
     induction n with
     | zero => rw [h0]; exact init_kinv hwf
-    | succ n ih => exact kstep_inv hwf (hrun n) ih
-  exact no_infinite_chain (kstep_terminates hwf) run (fun n => ⟨hinv n, hrun n⟩)
+    | succ n ih => exact (kstepAny_inv hwf (hrun n) ih).1
+  exact no_infinite_chain (kstepAny_terminates hwf) run (fun n => ⟨hinv n, hrun n⟩)
+
+/-- under the invariant a best-first turn is a `Step` of `Props/C01t.lean` on the sequential state (skipped nodes included) -/
+theorem kstep_step {sv : SolverCfg S} {H : Nat → S → EInt} {B0 B : Int} (hwf : WellFormed sv H B0 B) {s t : KSt S}
+    (hI : KInvSt sv H B s) (h : KStep sv s t) : C01t.Step sv.P.nbVars sv.dedup s.st t.st := (kstepAny_inv hwf h.any hI).2
+
+/-- the best-first step relation, on the states that satisfy the invariant, is well-founded -/
+theorem kstep_terminates {sv : SolverCfg S} {H : Nat → S → EInt} {B0 B : Int} (hwf : WellFormed sv H B0 B) :
+    WellFounded (fun t s : KSt S => KInvSt sv H B s ∧ KStep sv s t) :=
+  Subrelation.wf (fun {_ _} h => ⟨h.1, h.2.any⟩) (kstepAny_terminates hwf)
+
+theorem no_infinite_krun {sv : SolverCfg S} {H : Nat → S → EInt} {B0 B : Int} (hwf : WellFormed sv H B0 B)
+    (run : Nat → KSt S) (h0 : run 0 = KSt.init sv) : ¬ ∀ n, KStep sv (run n) (run (n + 1)) :=
+  fun hrun => no_infinite_krunAny hwf run h0 (fun n => (hrun n).any)
 
 /-! ## progress: no panic, no crash -/
 
-/-- from a state that satisfies the invariant and still has open sub-problems a turn is possible: a maximal node can be
-    popped, no cache access is out of range, both compilations end normally -/
+/-- **whatever entry of the fringe is popped, the turn is possible**: no cache access is out of range, both compilations end
+    normally -/
+theorem kstepAny_progress {sv : SolverCfg S} {H : Nat → S → EInt} {B0 B : Int} (hwf : WellFormed sv H B0 B) {s : KSt S}
+    (hI : KInvSt sv H B s) (N : SubP S) (rest : List (SubP S)) (hpop : s.st.fringe.Perm (N :: rest)) :
+    ∃ u, KStepAny sv s u ∧ sv.kturn s N rest = some u := by
+  obtain ⟨u, hu, _, _⟩ := kturn_inv hwf s N rest hpop hI
+  exact ⟨u, KStepAny.pop s u N rest hpop hu, hu⟩
+
+/-- from a state that satisfies the invariant and still has open sub-problems a best-first turn is possible: a maximal node
+    can be popped, no cache access is out of range, both compilations end normally -/
 theorem kstep_progress {sv : SolverCfg S} {H : Nat → S → EInt} {B0 B : Int} (hwf : WellFormed sv H B0 B) {s : KSt S}
     (hI : KInvSt sv H B s) (hne : s.st.fringe ≠ []) : ∃ t, KStep sv s t := by
   obtain ⟨N, rest, hp⟩ := popMax_some s.st.fringe hne
   obtain ⟨hpop, hmax⟩ := popMax_spec s.st.fringe N rest hp
-  obtain ⟨t, ht, _, _⟩ := kturn_inv hwf s N rest hpop (kstep_bf (sv := sv) hmax) hI
+  obtain ⟨t, ht, _, _⟩ := kturn_inv hwf s N rest hpop hI
   exact ⟨t, KStep.pop s t N rest hpop hmax ht⟩
 
 /-! ## (d) the headline -/
 
 /-- **`caching_solver_correct`**: for every well-formed model (`Ddo.C01.WellFormed`, the bundle of
-    `sequential_solver_correct`: `Potential`, `RubOk`, `MergeOk`, `AttMerge`, `RunBound`, `NvBound`, widths ≥ 1), every
-    ranking, width function, cut-set kind and either fringe, the sequential solver **with the threshold cache** over the
-    diagram model (both compilations consult and update the cache; `must_explore` at pop; `clear_layer` in `get_workload`;
-    no dominance, no cutoff; best-first pops)
+    `sequential_solver_correct`: `Potential`, `RubOk`, `MergeOk`, `AttMerge`, `RunBound`, `NvBound`, widths ≥ 1 — nothing
+    added), every ranking, width function, cut-set kind and either fringe, the sequential solver **with the threshold cache**
+    over the diagram model (both compilations consult and update the cache; `must_explore` at pop; `clear_layer` in
+    `get_workload`; `enqueue_cutset` pushes the cut-set nodes with the bounds of their own diagram — no cap; no dominance, no
+    cutoff), popping the fringe in **any order** (`KStepAny`: a custom `SubProblemRanking`, or sub-problems processed out of
+    order)
 
     * terminates: the step relation is well-founded on the reachable states, there is no infinite run;
-    * never gets stuck before the fringe is empty (no compilation crashes, no cache access panics) and never panics in the
-      `open_by_layer` bookkeeping;
-    * when the fringe is empty: reports `is_exact = true` and the optimum, with a stored solution that is a genuinely
-      feasible complete path of that value — or reports no value iff the problem is infeasible. -/
-theorem caching_solver_correct (sv : CSolverCfg S) (H : Nat → S → EInt) (B0 B : Int) (hwf : WellFormed sv H B0 B) :
+    * never panics: whatever entry of the fringe is popped the turn is possible (no compilation crashes, no cache access is
+      out of range), the `open_by_layer` bookkeeping never under- or overflows, the search is not aborted;
+    * when the fringe is empty: reports `is_exact = true` and **the optimum**, with a stored solution that is a genuinely
+      feasible complete path of that value — or reports no value iff the problem is infeasible.
+
+    (Before the repair of finding D14 this held for best-first pops only: `caching_solver_correct_bestfirst`,
+    `anyOrderOpt_false`.) -/
+theorem caching_solver_correct (sv : CSolverCfg S) (H : Nat → S → EInt) (B0 B : Int)
+    (hwf : WellFormed sv H B0 B) :
+    WellFounded (fun t s : KSt S => KRunAny sv (KSt.init sv) s ∧ KStepAny sv s t) ∧
+    (∀ run : Nat → KSt S, run 0 = KSt.init sv → ¬ ∀ n, KStepAny sv (run n) (run (n + 1))) ∧
+    ∀ t, KRunAny sv (KSt.init sv) t →
+      (∀ N rest, t.st.fringe.Perm (N :: rest) → ∃ u, KStepAny sv t u ∧ sv.kturn t N rest = some u) ∧
+      t.st.crashed = false ∧ t.st.abort = false ∧
+      (t.st.fringe = [] →
+        (∀ opt, (H 0 sv.P.init).addI sv.P.initVal = some opt →
+          t.st.bestLb = opt ∧ (∃ p, t.st.bestSol = some p ∧ SolOf sv.P p opt) ∧ t.st.completion = (true, some opt)) ∧
+        ((H 0 sv.P.init).addI sv.P.initVal = none → t.st.bestSol = none ∧ t.st.completion = (true, none))) := by
+  refine ⟨?_, fun run h0 => no_infinite_krunAny hwf run h0, fun t ht => ?_⟩
+  · exact Subrelation.wf (fun {_ _} h => ⟨krunAny_inv hwf h.1 (init_kinv hwf), h.2⟩) (kstepAny_terminates hwf)
+  · have hI := krunAny_inv hwf ht (init_kinv hwf)
+    exact ⟨fun N rest hpop => kstepAny_progress hwf hI N rest hpop, hI.lay.2, hI.noAbort,
+      fun hend => kinv_end_correct hwf hI hend⟩
+
+/-- **`caching_solver_correct_bestfirst`** (corollary; the headline before the repair of D14): the same with best-first pops
+    (`KStep`: the popped node has the largest upper bound, then the largest value — the `MaxUB` order of the shipped
+    solvers): termination, a turn is always possible before the fringe is empty, no panic, and at the empty fringe the
+    optimum with a feasible stored solution. -/
+theorem caching_solver_correct_bestfirst (sv : CSolverCfg S) (H : Nat → S → EInt) (B0 B : Int) (hwf : WellFormed sv H B0 B) :
     WellFounded (fun t s : KSt S => KRun sv (KSt.init sv) s ∧ KStep sv s t) ∧
     (∀ run : Nat → KSt S, run 0 = KSt.init sv → ¬ ∀ n, KStep sv (run n) (run (n + 1))) ∧
     ∀ t, KRun sv (KSt.init sv) t →
@@ -271,7 +323,7 @@ theorem ksolveLoop_total {sv : SolverCfg S} {H : Nat → S → EInt} {B0 B : Int
   · exact ⟨0, hne⟩
   · obtain ⟨N, rest, hp⟩ := popMax_some s.st.fringe hne
     obtain ⟨hpop, hmax⟩ := popMax_spec s.st.fringe N rest hp
-    obtain ⟨t, ht, hT, _⟩ := kturn_inv hwf s N rest hpop (kstep_bf (sv := sv) hmax) hI
+    obtain ⟨t, ht, hT, _⟩ := kturn_inv hwf s N rest hpop hI
     obtain ⟨n, hn⟩ := ih t ⟨hI, KStep.pop s t N rest hpop hmax ht⟩ hT
     refine ⟨n + 1, ?_⟩
     rw [SolverCfg.ksolveLoop]
@@ -316,16 +368,29 @@ theorem wellFormed (dedup : Bool) (kind : CutsetKind) : WellFormed (sv dedup kin
 /-- the optimum is 6 -/
 theorem opt6 : (H T 0 (prob T).init).addI (prob T).initVal = some 6 := by decide
 
-/-- the headline, instantiated: every run of the caching solver on `Revisit` (either fringe, either cut-set kind) that
-    reaches the empty fringe reports `is_exact = true`, `best_value = Some(6)`; before that a turn is always possible;
+/-- the best-first corollary of the headline, instantiated: every best-first run of the caching solver on `Revisit` (either
+    fringe, either cut-set kind) that reaches the empty fringe reports `is_exact = true`, `best_value = Some(6)`; before that a turn is always possible;
     nothing panics; there is no infinite run -/
 theorem correct (dedup : Bool) (kind : CutsetKind) (t : KSt Int)
     (ht : KRun (sv dedup kind) (KSt.init (sv dedup kind)) t) :
     (t.st.fringe = [] → t.st.completion = (true, some 6)) ∧ (t.st.fringe ≠ [] → ∃ u, KStep (sv dedup kind) t u) ∧
     t.st.crashed = false :=
-  ⟨fun hend => ((((caching_solver_correct (sv dedup kind) (H T) 3 15 (wellFormed dedup kind)).2.2 t ht).2.2 hend).1 6 opt6).2.2,
-   ((caching_solver_correct (sv dedup kind) (H T) 3 15 (wellFormed dedup kind)).2.2 t ht).1,
-   ((caching_solver_correct (sv dedup kind) (H T) 3 15 (wellFormed dedup kind)).2.2 t ht).2.1⟩
+  ⟨fun hend => ((((caching_solver_correct_bestfirst (sv dedup kind) (H T) 3 15 (wellFormed dedup kind)).2.2 t ht).2.2 hend).1 6 opt6).2.2,
+   ((caching_solver_correct_bestfirst (sv dedup kind) (H T) 3 15 (wellFormed dedup kind)).2.2 t ht).1,
+   ((caching_solver_correct_bestfirst (sv dedup kind) (H T) 3 15 (wellFormed dedup kind)).2.2 t ht).2.1⟩
+
+/-- the same for **every pop order** (the headline itself, instantiated): any run with arbitrary pops that reaches the empty
+    fringe reports `is_exact = true`, `best_value = Some(6)`; whatever entry of the fringe is popped the turn is possible;
+    nothing panics -/
+theorem correct_anyorder (dedup : Bool) (kind : CutsetKind) (t : KSt Int)
+    (ht : KRunAny (sv dedup kind) (KSt.init (sv dedup kind)) t) :
+    (t.st.fringe = [] → t.st.completion = (true, some 6)) ∧
+    (∀ N rest, t.st.fringe.Perm (N :: rest) → ∃ u, (sv dedup kind).kturn t N rest = some u) ∧
+    t.st.crashed = false := by
+  have h := (caching_solver_correct (sv dedup kind) (H T) 3 15 (wellFormed dedup kind)).2.2 t ht
+  refine ⟨fun hend => ((h.2.2.2 hend).1 6 opt6).2.2, fun N rest hp => ?_, h.2.1⟩
+  obtain ⟨u, _, hu⟩ := h.1 N rest hp
+  exact ⟨u, hu⟩
 
 /-- the state after `j` best-first turns (plain fringe, last-exact-layer cut-set) -/
 def after (j : Nat) : KSt Int := (sv false .lel).ksolveLoop j (KSt.init (sv false .lel))
@@ -372,30 +437,15 @@ end Revisit
 
 /-! ## 5. arbitrary pop orders (`AnyOrder`)
 
-What holds for **every** pop order (`KStepAny`: any entry of the fringe may be popped — a custom `SubProblemRanking`):
-`caching_solver_anyorder_sound` — termination, no panic / crash, and soundness of whatever is reported (the incumbent is the
-value of the stored solution, a genuinely feasible complete path, hence `≤` the optimum).  Only **optimality** at the empty
-fringe needs the best-first hypothesis in `caching_solver_correct` — and it really does: `anyOrderOpt_false`. -/
+For **every** pop order (`KStepAny`: any entry of the fringe may be popped — a custom `SubProblemRanking`) the headline
+`caching_solver_correct` gives termination, no panic / crash **and optimality** at the empty fringe (`anyOrderOptFixed_true`).
+`caching_solver_anyorder_sound` — termination, no panic / crash, and soundness of whatever is reported in *every* reachable
+state (the incumbent is the value of the stored solution, a genuinely feasible complete path, hence `≤` the optimum) — is
+what was known for arbitrary orders before the repair of D14; it is now a corollary of the invariant.
 
-theorem kstepAny_inv {sv : SolverCfg S} {H : Nat → S → EInt} {B0 B : Int} (hwf : WellFormed sv H B0 B) {s t : KSt S}
-    (h : KStepAny sv s t) (hI : KInvAny sv H s) : KInvAny sv H t ∧ C01t.Step sv.P.nbVars sv.dedup s.st t.st := by
-  cases h with
-  | pop N rest hpop hturn =>
-    obtain ⟨t', ht', hT, hS⟩ := kturn_any hwf s N rest hpop hI
-    rw [hturn] at ht'
-    cases ht'
-    exact ⟨hT, hS⟩
-
-theorem krunAny_inv {sv : SolverCfg S} {H : Nat → S → EInt} {B0 B : Int} (hwf : WellFormed sv H B0 B) {s t : KSt S}
-    (h : KRunAny sv s t) (hI : KInvAny sv H s) : KInvAny sv H t := by
-  induction h with
-  | refl => exact hI
-  | tail _ hstep ih => exact (kstepAny_inv hwf hstep ih).1
-
-theorem kstepAny_terminates {sv : SolverCfg S} {H : Nat → S → EInt} {B0 B : Int} (hwf : WellFormed sv H B0 B) :
-    WellFounded (fun t s : KSt S => KInvAny sv H s ∧ KStepAny sv s t) :=
-  Subrelation.wf (r := InvImage (fun t s : SeqSt S => C01t.Step sv.P.nbVars sv.dedup s t) KSt.st)
-    (fun {_ _} h => (kstepAny_inv hwf h.2 h.1).2) (InvImage.wf _ (C01t.seq_terminates sv.P.nbVars sv.dedup))
+`AnyOrderOpt` / `anyOrderOpt_false` are statements about the **pre-fix solver** (`KRunAnyCapped`: `enqueue_cutset(ub)` capping
+the cut-set nodes by the bound of the processed node): for it optimality really needed best-first pops.  D14 is repaired in
+the code by dropping the cap; the witnesses are kept as the record of why. -/
 
 /-- **`caching_solver_anyorder_sound`**: for every well-formed model and **every pop order**, the caching sequential solver
     over the diagram model terminates, never panics (whatever entry of the fringe is popped, the turn is possible), keeps the
@@ -410,42 +460,37 @@ theorem caching_solver_anyorder_sound (sv : CSolverCfg S) (H : Nat → S → EIn
       (∀ opt, (H 0 sv.P.init).addI sv.P.initVal = some opt →
         t.st.bestLb ≤ opt ∧ ∀ p, t.st.bestSol = some p → SolOf sv.P p t.st.bestLb) ∧
       ((H 0 sv.P.init).addI sv.P.initVal = none → t.st.bestSol = none) := by
-  have h0 : KInvAny sv H (KSt.init sv) := (init_kinv hwf).toAny
-  refine ⟨?_, ?_, fun t ht => ?_⟩
-  · exact Subrelation.wf (fun {_ _} h => ⟨krunAny_inv hwf h.1 h0, h.2⟩) (kstepAny_terminates hwf)
-  · intro run hr0 hrun
-    have hinv : ∀ n, KInvAny sv H (run n) := by
-      intro n
-      induction n with
-      | zero => rw [hr0]; exact h0
-      | succ n ih => exact (kstepAny_inv hwf (hrun n) ih).1
-    exact no_infinite_chain (kstepAny_terminates hwf) run (fun n => ⟨hinv n, hrun n⟩)
-  · have hI := krunAny_inv hwf ht h0
-    refine ⟨fun N rest hpop => ?_, hI.lay.2, hI.noAbort, hI.snd, fun hinf => (hI.infeas hinf).2⟩
-    obtain ⟨u, hu, _, _⟩ := kturn_any hwf t N rest hpop hI
-    exact ⟨u, KStepAny.pop t u N rest hpop hu, hu⟩
+  obtain ⟨h1, h2, h3⟩ := caching_solver_correct sv H B0 B hwf
+  refine ⟨h1, h2, fun t ht => ?_⟩
+  have hI := (krunAny_inv hwf ht (init_kinv hwf)).toAny
+  exact ⟨(h3 t ht).1, hI.lay.2, hI.noAbort, hI.snd, fun hinf => (hI.infeas hinf).2⟩
 
-/-- **`AnyOrderOpt`** (replaces the placeholder `AnyOrder` of `Props/C09b.lean`): optimality of the caching solver at the
-    empty fringe for **arbitrary** pop orders.  **It is false** (`anyOrderOpt_false`). -/
+/-- **`AnyOrderOpt`** — a statement about the **pre-fix solver** (`KRunAnyCapped`: `enqueue_cutset(ub)` with
+    `cutset_node.ub = ub.min(cutset_node.ub)`, the code before the repair of D14): optimality of the caching solver at the
+    empty fringe for **arbitrary** pop orders.  **It is false** (`anyOrderOpt_false`).  For the repaired solver:
+    `AnyOrderOptFixed`, which is true. -/
 def AnyOrderOpt : Prop :=
   ∀ (S : Type) [DecidableEq S] (sv : CSolverCfg S) (H : Nat → S → EInt) (B0 B : Int), WellFormed sv H B0 B →
-    ∀ t, KRunAny sv (KSt.init sv) t → t.st.fringe = [] →
+    ∀ t, KRunAnyCapped sv (KSt.init sv) t → t.st.fringe = [] →
       ∀ opt, (H 0 sv.P.init).addI sv.P.initVal = some opt → t.st.bestLb = opt
 
 set_option maxRecDepth 100000 in
 theorem counter_lb :
-    ((Layered.Counter.sv false .lel).ksolveSched (Layered.Counter.sched false .lel)
+    ((Layered.Counter.sv false .lel).ksolveSchedCapped (Layered.Counter.sched false .lel)
       (KSt.init (Layered.Counter.sv false .lel))).st.bestLb = 4 := by decide
 
-/-- **`AnyOrder` is false**: `processC_inv` cannot be proved without the best-first hypothesis `hbf`, because the closed
-    statement fails.  `Ddo.C09.Layered.Counter` (`Proofs/AnyOrderLayered.lean`; full description, turn-by-turn trace and
-    replay data there): a `WellFormed` model — 7 binary variables, 3 states, merge = largest state, width 1 for sub-problems
-    of depth ≤ 1 and 2 below — on which the caching solver popping **breadth-first** (shallowest open sub-problem first)
-    runs five turns without panic, ends with the empty fringe and `is_exact = true`, and reports 4; the optimum is 10
-    (best-first pops return 10: `Layered.Counter.bestfirst_value`).  Both cut-set kinds, both fringes
-    (`Layered.Counter.anyorder_counter_all`); with `FixedWidth(2)` for every sub-problem: `Layered.Fixed.anyorder_counter`.
+/-- **`AnyOrderOpt` is false** (finding D14; a statement about the **pre-fix solver**, repaired since in the code by dropping
+    the cap).  With the capped `enqueue_cutset(ub)` the invariant `CInvC` could not be proved without a best-first hypothesis,
+    because the closed statement fails.  `Ddo.C09.Layered.Counter` (`Proofs/AnyOrderLayered.lean`; full description,
+    turn-by-turn trace and replay data there): a `WellFormed` model — 7 binary variables, 3 states, merge = largest state,
+    width 1 for sub-problems of depth ≤ 1 and 2 below — on which the capped caching solver popping **breadth-first**
+    (shallowest open sub-problem first) runs five turns without panic, ends with the empty fringe and `is_exact = true`, and
+    reports 4; the optimum is 10 (best-first pops return 10: `Layered.Counter.bestfirst_value_capped`).  Both cut-set kinds,
+    both fringes (`Layered.Counter.anyorder_counter_all`); with `FixedWidth(2)` for every sub-problem:
+    `Layered.Fixed.anyorder_counter`.
 
-    Mechanism (the only way `step_generic` can fail without `hbf`, at `hEnq`).  (1) A fringe node `N` has `ub(N) < pot(N)`:
+    Mechanism (the only place where the proof of `step_generic` used best-first pops: `hEnq`, the capped node must still carry
+    what it is a witness for).  (1) A fringe node `N` has `ub(N) < pot(N)`:
     in the diagram of its parent, the relaxed image of `N`'s optimal path was cut by `_filter_with_cache` at a child `s*` of
     a *merged* node — a state the exact path from `N` never visits — whose threshold is carried by an open node `k2` with
     `ub(k2) ≥ pot(N)`.  (2) `N` is popped before `k2` (impossible with best-first pops).  Its own diagram is not cut there,
@@ -453,20 +498,36 @@ theorem counter_lb :
     `enqueue_cutset` caps its bound: `min(ub(N), ·) < pot(c')`; once the incumbent is `≥ ub(N)` the node `c'` is not enqueued
     (or dropped by `node.ub ≤ best_lb` later).  (3) `k2`'s optimal path converges with `N`'s at `c'`'s `(state, depth)` with the
     same value: when `k2` is popped, `_filter_with_cache` prunes it there.  Nothing carries `pot(N)` any more.
-    The thresholds are individually sound (`theta_sound`: each is justified by the cut-set of its own diagram); what breaks
-    is the composition `cutset_node.ub = ub.min(cutset_node.ub)` with a parent bound that is only valid "modulo what the
-    cache covers".  Without the cache every pop order is correct (`Props/C01t.lean`), and with the cache every pop order is
-    sound and terminates (`caching_solver_anyorder_sound`). -/
+    The thresholds are individually sound (`theta_sound`: each is justified by the cut-set of its own diagram); what broke
+    was the composition `cutset_node.ub = ub.min(cutset_node.ub)` with a parent bound that is only valid "modulo what the
+    cache covers".  Without the cache every pop order is correct (`Props/C01t.lean`); with the cache and **without the cap**
+    every pop order is correct too (`caching_solver_correct`, `anyOrderOptFixed_true`; on this very model and schedule:
+    `Layered.Counter.nocap_bfs_value` in `Props/C09d.lean`). -/
 theorem anyOrderOpt_false : ¬ AnyOrderOpt := by
   intro h
   have h4 := h Int (Layered.Counter.sv false .lel) (Layered.H Layered.Counter.T) 10 80 (Layered.Counter.wellFormed false .lel) _
-    (ksolveSched_run _ (Layered.Counter.sched false .lel) _)
+    (ksolveSchedCapped_run _ (Layered.Counter.sched false .lel) _)
     (List.eq_nil_of_length_eq_zero Layered.Counter.anyorder_counter.2.2.1) 10 Layered.Counter.opt10
   rw [counter_lb] at h4
   exact absurd h4 (by decide)
 
-/-- stated, not proved: the parallel solver with the cache -/
-def ParallelCaching : Prop := True
+/-- **`AnyOrderOptFixed`**: the statement `AnyOrderOpt` for the repaired solver (`KRunAny`: no cap in `enqueue_cutset`) —
+    optimality at the empty fringe for **arbitrary** pop orders.  **It is true** (`anyOrderOptFixed_true`). -/
+def AnyOrderOptFixed : Prop :=
+  ∀ (S : Type) [DecidableEq S] (sv : CSolverCfg S) (H : Nat → S → EInt) (B0 B : Int), WellFormed sv H B0 B →
+    ∀ t, KRunAny sv (KSt.init sv) t → t.st.fringe = [] →
+      ∀ opt, (H 0 sv.P.init).addI sv.P.initVal = some opt → t.st.bestLb = opt
+
+/-- **without the cap, optimality holds for arbitrary pop orders** (`AnyOrderOpt` is false, `AnyOrderOptFixed` is true: the cap
+    of `enqueue_cutset` was the only obstacle) -/
+theorem anyOrderOptFixed_true : AnyOrderOptFixed := by
+  intro S _ sv H B0 B hwf t ht hend opt hopt
+  exact ((((caching_solver_correct sv H B0 B hwf).2.2 t ht).2.2.2 hend).1 opt hopt).1
+
+/-! The parallel solver with the cache (nodes in hand of other threads, interleaved `update_threshold` calls) has no statement
+here: the parallel system of this development (`ParSys.lean`) is modelled without a threshold cache, so there is nothing to
+quantify over.  What the any-order headline does cover is the sequential shadow of its scheduling freedom — "popped
+best-first is not processed best-first" is an arbitrary pop order of `KStepAny`. -/
 
 end Ddo.C09
 
@@ -476,18 +537,24 @@ end Ddo.C09
 #print axioms Ddo.C09.compC_relaxed_of_model
 #print axioms Ddo.C09.compC_restricted_of_model
 #print axioms Ddo.C09.kturn_inv
+#print axioms Ddo.C09.kstepAny_inv
+#print axioms Ddo.C09.krunAny_inv
+#print axioms Ddo.C09.kstepAny_terminates
 #print axioms Ddo.C09.caching_solver_correct
+#print axioms Ddo.C09.caching_solver_correct_bestfirst
 #print axioms Ddo.C09.ksolveLoop_run
 #print axioms Ddo.C09.ksolveLoop_correct
 #print axioms Ddo.C09.ksolveLoop_total
 #print axioms Ddo.C09.ksolveLoop_computes_opt
 #print axioms Ddo.C09.Revisit.wellFormed
 #print axioms Ddo.C09.Revisit.correct
+#print axioms Ddo.C09.Revisit.correct_anyorder
 #print axioms Ddo.C09.Revisit.loop_value
 #print axioms Ddo.C09.Revisit.refused
 #print axioms Ddo.C09.Revisit.filter_prunes
 #print axioms Ddo.C09.caching_solver_anyorder_sound
 #print axioms Ddo.C09.anyOrderOpt_false
+#print axioms Ddo.C09.anyOrderOptFixed_true
 #print axioms Ddo.C09.Layered.Counter.anyorder_counter
 #print axioms Ddo.C09.Layered.Counter.anyorder_counter_all
 #print axioms Ddo.C09.Layered.Fixed.anyorder_counter
